@@ -8,6 +8,9 @@ ops:  build <blockSize> <bloom 0|1> <bitsPerKey> <u:ver:val,...>   (entries in b
       get <u> <ver>               table.Search
       seek asc|desc <u> <ver> <n> Seek + up to n Next
       scan asc|desc               Rewind + Next…
+      it new asc|desc / it rewind / it seek <u> <ver> / it next / it drain
+                                  one long-lived table iterator; reply = current entry (`-` = invalid),
+                                  drain = Next until invalid, reply = entries visited
       reopen                      close the file handle, drop caches, open the file again
       buildnc …                   like build, block cache disabled and table on level 2
       corruptlive <blk> <pos> <bit>  like corrupt but the table stays open (only after buildnc)
@@ -27,7 +30,10 @@ structure St where
   built : Bool := false
   uncached : Bool := false   -- built with the block cache disabled, on level 2
   bad : Option Nat := none   -- index of the block whose bytes were corrupted in the file
-  badPanics : Bool := false  -- loading that block panics (flipped checksum-length field past the as-is guard)
+  badPanics : Bool := false
+  cur : Option (Bool × Cur) := none   -- one long-lived iterator: (ascending?, model state)
+  specRem : List SEntry := []         -- the specification cursor: entries from the current one on
+  curPositioned : Bool := false       -- the iterator has received a Rewind or Seek  -- loading that block panics (flipped checksum-length field past the as-is guard)
 
 def setCfg (st : St) (kv : String) : Option St :=
   match kv.splitOn "=" with
@@ -39,6 +45,11 @@ def setCfg (st : St) (kv : String) : Option St :=
     | "sst.blkFwdOp" => do let o ← CmpOp.ofString? v; pure { st with c := { st.c with blkFwdOp := o } }
     | "sst.blkRevOp" => do let o ← CmpOp.ofString? v; pure { st with c := { st.c with blkRevOp := o } }
     | "sst.searchVsOp" => do let o ← CmpOp.ofString? v; pure { st with c := { st.c with searchVsOp := o } }
+    | "sst.seekReloads" => do let b ← boolOfString? v; pure { st with c := { st.c with seekReloads := b } }
+    | "sst.nextUnload" =>
+        if v == "data" then some { st with c := { st.c with nextUnloadsBoth := false } }
+        else if v == "both" then some { st with c := { st.c with nextUnloadsBoth := true } }
+        else none
     | "sst.verifyEveryLoad" => do let b ← boolOfString? v; pure { st with c := { st.c with verifyEveryLoad := b } }
     | "sst.chkLenGuard" =>
         if v == "readPos" then some { st with c := { st.c with chkLenGuardReadPos := true } }
@@ -119,7 +130,7 @@ def doBuild (st : St) (op bs bloom bpk ents : String) : St × String :=
   | some bs, some bloom, some bpk, some es =>
     let k := min (max (bpk * 69 / 100) 1) 30
     let t := buildTable st.c modelHash bs (bloom == 1) bpk k es
-    ({ st with t := t, ents := es, built := true, bad := none, badPanics := false, uncached := (op == "buildnc") },
+    ({ st with t := t, ents := es, built := true, bad := none, badPanics := false, uncached := (op == "buildnc"), cur := none, specRem := [] },
       s!"ok:{es.length}\tok:{es.length}")
   | _, _, _, _ => (st, "bad-op")
 
@@ -143,6 +154,39 @@ def doCorrupt (st : St) (op b pos bit : String) : St × String :=
       else ({ st with bad := some bi, badPanics := panics }, "ok\tok")
   | _, _ => (st, "bad-op")
 
+def headStr (l : List SEntry) : String := match l with | [] => "-" | e :: _ => entStr e
+
+/-- ops on the long-lived iterator; reply = the current entry after the call (`-` = not valid),
+for `drain` the entries visited -/
+def doCursor (st : St) (args : List String) : St × String :=
+  if st.bad.isSome then (st, "bad-op") else
+  match args with
+  | ["new", dir] => ({ st with cur := some (dir == "asc", {}), specRem := [], curPositioned := false }, "ok\tok")
+  | _ =>
+    match st.cur with
+    | none => (st, "no-cursor\tno-cursor")
+    | some (asc, cur) =>
+      let apply (op : COp) : St × String :=
+        let cur' := curStep st.c st.t.blocks asc cur op
+        let sp := specStep st.ents asc st.specRem op
+        ({ st with cur := some (asc, cur'), specRem := sp, curPositioned := true },
+          (if cur'.dead then "panic" else headStr cur'.rem) ++ "\t" ++ headStr sp)
+      match args with
+      | ["rewind"] => apply .rewind
+      | ["next"] => if !st.curPositioned then (st, "unpositioned\tunpositioned") else if cur.rem.isEmpty then (st, "-\t" ++ headStr st.specRem) else apply .next
+      | ["seek", u, v] =>
+        match bytesOf? u, natOf? v with
+        | some u, some v => apply (.seek (mkKey IdxCfg.good u v))
+        | _, _ => (st, "bad-op")
+      | ["drain"] =>
+        if !st.curPositioned then (st, "unpositioned\tunpositioned") else
+        -- Next until the iterator is no longer valid; reply = the entries visited
+        let visited := cur.rem.tail
+        let cur' := (List.replicate cur.rem.length COp.next).foldl (curStep st.c st.t.blocks asc) cur
+        ({ st with cur := some (asc, cur'), specRem := [] },
+          entsStr visited ++ "\t" ++ entsStr st.specRem.tail)
+      | _ => (st, "bad-op")
+
 def step (st : St) (toks : List String) : St × String :=
   if !st.built && toks.head? != some "cfg" && toks.head? != some "build" && toks.head? != some "buildnc" then (st, "no-table\tno-table") else
   match toks with
@@ -154,9 +198,10 @@ def step (st : St) (toks : List String) : St × String :=
   | ["buildnc", bs, bloom, bpk, ents] => doBuild st "buildnc" bs bloom bpk ents
   | ["blocks"] =>
     (st, ",".intercalate (st.t.blocks.map (fun b => keyStr (baseKey b) ++ ":" ++ toString (blockBytes b))) ++ "\t*")
+  | "it" :: args => doCursor st args
   | ["reopen"] =>
-    if st.badPanics && st.bad == some (st.t.blocks.length - 1) then ({ st with built := false }, "panic\tok")
-    else (st, "ok\tok")
+    if st.badPanics && st.bad == some (st.t.blocks.length - 1) then ({ st with built := false, cur := none }, "panic\tok")
+    else ({ st with cur := none, specRem := [] }, "ok\tok")
   | ["corrupt", b, pos, bit] => doCorrupt st "corrupt" b pos bit
   | ["corruptlive", b, pos, bit] => doCorrupt st "corruptlive" b pos bit
   | ["get", u, v] =>
